@@ -44,8 +44,19 @@ TasksOf(kind) == CASE kind = "sl" -> {"cc", "sec", "sed"} [] kind = "ml" -> {"cm
 TaskNo(task)  == CASE task = "cc" -> 0 [] task = "cml" -> 0 [] task = "sec" -> 1 [] task = "sed" -> 2
 Labelled(items) == {i \in DOMAIN items : items[i].t # 0} # {}
 
+\* clips of one input only, around the m evaluated clips: none / a predicted-only clip first, last, in between /
+\* an annotated-only clip / combinations.  The binder runs both orders, so "first" is also "last" and vice versa.
+ExtraPatterns(m) ==
+    << <<>>,
+       <<[pos |-> 0, side |-> "pred"]>>,
+       <<[pos |-> m, side |-> "pred"]>>,
+       <<[pos |-> (m + 1) \div 2, side |-> "pred"]>>,
+       <<[pos |-> 0, side |-> "ann"]>>,
+       <<[pos |-> m, side |-> "ann"], [pos |-> 0, side |-> "pred"]>>,
+       <<[pos |-> 0, side |-> "pred"], [pos |-> m, side |-> "pred"], [pos |-> m \div 2, side |-> "ann"]>>,
+       <<>> >>
 \* the case drawn from plan entry e for the index multiset rs and the task
-MkCase(e, rs, task) ==
+MkCore(e, rs, task) ==
     LET item(r) == IF e.kind # "ml" THEN SlItem(r, e.C) ELSE MlItem(r, e.C)
         sh == ShapesOf(e.n)
     IN  [task  |-> task, C |-> e.C, u |-> U,
@@ -53,6 +64,10 @@ MkCase(e, rs, task) ==
          clips |-> IF task \in {"cc", "cml"} THEN OneEach(e.n)
                    ELSE FromSizes(sh[1 + ((SumSeq(rs) + TaskNo(task)) % Len(sh))]),
          style |-> (rs[1] + 3 * rs[e.n] + TaskNo(task)) % 2]
+MkCase(e, rs, task) ==
+    LET k == MkCore(e, rs, task)  pats == ExtraPatterns(Len(k.clips))
+    IN  [task |-> k.task, C |-> k.C, u |-> k.u, items |-> k.items, clips |-> k.clips, style |-> k.style,
+         extras |-> pats[1 + ((5 * rs[1] + SumSeq(rs) + (rs[e.n] \div 3) + 3 * TaskNo(task)) % Len(pats))]]
 Catalogue(e) == IF e.kind # "ml" THEN SlValid(e.C) ELSE MlRaw(e.C)
 
 \* sound_event_detection computes mean average precision over the labelled items: with none it is undefined
@@ -132,6 +147,9 @@ LawDistinctTerms      == TableDistinctTerms(c.task, TableVariant)
 LawTermNamesFunction  == TableTermNamesFunction(c.task, TableVariant)
 \* Impl => Req: the value mean_average_precision computes for multilabel truths is an allowed macro mean
 ImplMapRefinesReq == (Out /\ ~SingleLabel(c.task)) => ImplMapMLRefinesReq(c.items, c.C, c.u, MapVariant)
+\* the clips evaluated (walk the predictions, keep the annotated ones) are exactly the clips in both inputs, in both orders
+LawEvaluatedClips == ImplIterateRefinesReq(c)
+LawExtrasWellFormed == \A i \in DOMAIN c.extras : c.extras[i].pos \in 0..Len(c.clips) /\ c.extras[i].side \in {"pred", "ann"}
 LawComputed == ph = "out" => DOMAIN res = MetricIds(c.task)
 
 \* smallest universe showing the two as-found defects on the model (spec/history/*.cfg)
